@@ -5,6 +5,8 @@ import (
 	"testing"
 	"unicode/utf8"
 
+	otp "github.com/ja7ad/otp"
+
 	"verifh/ev"
 	"verifh/gen"
 	"verifh/ref"
@@ -302,4 +304,171 @@ func FuzzC04(f *testing.F) {
 		}
 		fuzzFail(t, c04Main, c)
 	})
+}
+
+// fuzzSuite decodes a suite specification (registered name or hand-built configuration, usable or not).
+func (p *provider) fuzzSuite() suiteSpec {
+	if p.intn(4) == 0 {
+		return suiteSpec{Via: "registered", Name: registeredNames[p.intn(len(registeredNames))]}
+	}
+	cfg := ref.OCRACfg{SessionNN: -1, Hash: p.intn(4), Digits: 3 + p.intn(9)}
+	mask := p.intn(32)
+	cfg.C, cfg.Q, cfg.P, cfg.S, cfg.T = mask&1 != 0, mask&2 != 0, mask&4 != 0, mask&8 != 0, mask&16 != 0
+	cfg.QFormat, cfg.PHash, cfg.TimeStep = p.intn(7), p.intn(4), p.intn(4)-1
+	raw := p.bytes(60)
+	if !utf8.Valid(raw) {
+		raw = []byte(fmt.Sprintf("%x", raw))
+	}
+	cfg.Raw = string(raw)
+	return suiteSpec{Via: []string{"config", "rawsuite", "newsuite"}[p.intn(3)], Cfg: cfg}
+}
+
+var fuzzLens = []int{0, 1, 7, 8, 9, 10, 11, 19, 20, 21, 31, 32, 33, 63, 64, 65, 127, 128, 129, 130, 200, 256}
+
+func (p *provider) field() []byte {
+	switch p.intn(8) {
+	case 0:
+		return nil
+	case 1:
+		return p.bytes(300)
+	}
+	n := fuzzLens[p.intn(len(fuzzLens))]
+	out := make([]byte, n)
+	f := p.byte()
+	for k := range out {
+		out[k] = f + byte(k)*p.b[0]
+	}
+	return out
+}
+
+// FuzzC06: equivalence of validation and generation over suites, secrets, inputs (admissible or not) and submitted
+// strings derived from the generated code by fuzzer-chosen edits.
+func FuzzC06(f *testing.F) {
+	f.Add([]byte{0, 3, 1, 2, 3, 4, 5, 6, 7, 8, 9, 10, 11, 12, 13, 14, 15, 16, 17, 18, 19, 20, 21, 22, 23, 24, 25, 26, 27, 28, 29, 30})
+	f.Add([]byte{1, 2, 7, 31, 1, 1, 1, 0, 9, 9, 9, 9, 9, 9, 9, 9, 9, 9, 9, 9, 9, 9, 9, 9, 9, 9, 9, 9, 9, 9, 9, 9, 9, 9, 9, 9})
+	f.Fuzz(func(t *testing.T, data []byte) {
+		if len(data) == 0 {
+			return
+		}
+		p := &provider{b: data}
+		c := c06Case{Suite: p.fuzzSuite(), Origin: "fuzz"}
+		key := p.bytes(100)
+		c.Secret = gen.Spell(key, gen.Spelling{Pad: 1})
+		if p.intn(16) == 0 {
+			c.Secret += "!"
+		}
+		c.In = ref.OCRAIn{C: p.field(), Q: p.field(), P: p.field(), S: p.field(), T: p.field()}
+		suite, _, _ := c.Suite.resolve()
+		if suite == nil {
+			return
+		}
+		g, gerr := safeGenerateOCRA(c.Secret, suite, c.In)
+		code := []byte(g)
+		if gerr != nil {
+			code = []byte("000000")
+		}
+		switch p.intn(6) {
+		case 0: // as generated
+		case 1: // one byte replaced
+			if len(code) > 0 {
+				code[p.intn(len(code))] = p.byte()
+			}
+		case 2: // truncated / extended
+			if p.byte()&1 == 0 && len(code) > 0 {
+				code = code[:p.intn(len(code))]
+			} else {
+				code = append(code, p.byte())
+			}
+		case 3: // numeric alias
+			code = []byte(fmt.Sprintf("%0*d", len(code), (atoiLoose(code)+uint64(1)<<(8*uint(1+p.intn(4))))%pow10u(len(code))))
+		default:
+			code = p.bytes(14)
+		}
+		c.Code = code
+		fuzzFail(t, c06Main, c)
+	})
+}
+
+func atoiLoose(b []byte) uint64 {
+	var v uint64
+	for _, ch := range b {
+		if ch >= '0' && ch <= '9' {
+			v = v*10 + uint64(ch-'0')
+		}
+	}
+	return v
+}
+
+func pow10u(n int) uint64 {
+	v := uint64(1)
+	for i := 0; i < n && i < 19; i++ {
+		v *= 10
+	}
+	return v
+}
+
+// FuzzC14: admission and usability against the independent predicates, configurations and lengths from the fuzzer.
+func FuzzC14(f *testing.F) {
+	f.Add([]byte{31, 1, 1, 6, 0, 1, 8, 8, 20, 0, 8, 3})
+	f.Add([]byte{2, 4, 0, 10, 2, 0, 0, 129, 0, 0, 0, 11})
+	f.Fuzz(func(t *testing.T, data []byte) {
+		p := &provider{b: data}
+		mask := p.intn(32)
+		cfg := ref.OCRACfg{Raw: "fz", SessionNN: -1, C: mask&1 != 0, Q: mask&2 != 0, P: mask&4 != 0, S: mask&8 != 0, T: mask&16 != 0,
+			QFormat: p.intn(7), PHash: p.intn(4), Digits: p.intn(14) - 1, Hash: p.intn(5), TimeStep: p.intn(4) - 1}
+		fuzzFail(t, c14Cfg, c14CfgCase{Cfg: cfg})
+		if !ref.SuiteUsable(cfg) {
+			return
+		}
+		var lens [5]int
+		for i := range lens {
+			switch p.intn(4) {
+			case 0:
+				lens[i] = -1
+			case 1:
+				lens[i] = int(p.byte())<<8 | int(p.byte())
+			default:
+				lens[i] = fuzzLens[p.intn(len(fuzzLens))]
+			}
+		}
+		fuzzFail(t, c14In, c14InCase{Cfg: cfg, Lens: lens, Full: p.byte()&1 == 0, Fill: p.byte(), Sweep: "fuzz"})
+	})
+}
+
+// FuzzC02: TOTP against HOTP at floor(unix/period) over fuzzer-chosen instants, periods and parameters.
+func FuzzC02(f *testing.F) {
+	f.Add([]byte("12345678901234567890"), uint64(59), uint32(0), uint32(30), uint8(8), uint8(0), uint8(0))
+	f.Add([]byte("k"), uint64(1<<40), uint32(999_999_999), uint32(7), uint8(10), uint8(2), uint8(5))
+	f.Fuzz(func(t *testing.T, key []byte, unix uint64, nsec, period uint32, digits, algo, misc uint8) {
+		if len(key) > 200 || unix >= 1<<62 {
+			return
+		}
+		c := c02Case{Key: key, Sp: gen.Spelling{Pad: 1}, Unix: int64(unix), Nsec: int(nsec % 1_000_000_000), Zone: int(misc) % len(zones), Mono: misc&64 != 0,
+			Period: uint64(period), Digits: int(digits % 12), Algo: int(algo % 4), NilParam: misc&128 != 0, Skew: uint64(misc>>3) % 11, Via: int(algo>>2) % 5}
+		fuzzFail(t, c02Main, c)
+	})
+}
+
+// FuzzC13: otpauth URL text from the fuzzer around a secret parameter; whatever error comes back must not carry the secret.
+func FuzzC13(f *testing.F) {
+	f.Add("otpauth://totp/ACME:bob?issuer=ACME&digits=6&period=30&algorithm=SHA1&", "&x=1", []byte("12345678901234567890"))
+	f.Add("otpauth://hotp/ACME%3Abob?issuer=acme&counter=x&", "", []byte("0123456789abcdef"))
+	f.Add("OTPAUTH://totp/:?", "&secret=A", []byte("kkkkkkkkkkkk"))
+	f.Fuzz(func(t *testing.T, before, after string, key []byte) {
+		if len(key) < 10 || len(key) > 64 || len(before)+len(after) > 400 {
+			return
+		}
+		fuzzFail(t, c13URL, c13URLCase{Before: before, After: after, Key: key})
+	})
+}
+
+// safeGenerateOCRA calls GenerateOCRA and turns a panic into an error (the harness only needs a base code here;
+// panics are C10's subject and are reported by the part's own safe wrapper when they recur inside the check).
+func safeGenerateOCRA(secret string, suite otp.Suite, in ref.OCRAIn) (g string, err error) {
+	defer func() {
+		if r := recover(); r != nil {
+			err = fmt.Errorf("panic: %v", r)
+		}
+	}()
+	return otp.GenerateOCRA(secret, suite, toLibIn(in))
 }
